@@ -226,23 +226,67 @@ Definition state_names := [NPrediction; NState; NAll].
 Definition exo_names := [NPrediction; NExogenous; NAll].
 Definition corr_names := [NCorrection; NAll].
 
+(* ---- the measurement path: freeze_measurements is NOT gated by the skip flag ----
+   GaussianCorrection::freeze_measurements / PFCorrection::freeze_measurements
+   (GaussianCorrection.cpp:34-37, PFCorrection.cpp:32-35) forward to MeasurementModel::freeze whatever skip_ is.
+   With a stream-like sensor every freeze advances the source (SimulatedLinearSensor::freeze ->
+   SimulatedStateModel::bufferData); correctStep uses the measurement frozen last.  The machine state is
+   therefore the flags plus the cursor of the measurement source (= number of freeze calls so far). *)
+Record mstate := mkM { ms_flags : flags; ms_cursor : nat }.
+Definition m_init (have : bool) : mstate := mkM (init have) 0.
+
 (* observable instantiation used by the correspondence check: a belief is a
    marker saying which computation produced it; the output object handed in has
    either the input's shape (OOld) or another one (OOldOther) *)
-Inductive outcome := OInput | OOld | OOldOther | ORan (k : kind) (m : prop_mode) | OCorrected (k : kind) | OSliced.
+Inductive outcome := OInput | OOld | OOldOther | ORan (k : kind) (m : prop_mode) | OCorrected (k : kind) (meas : nat) | OSliced.
 Definition same_shape_o (_ old : outcome) : bool := match old with OOldOther => false | _ => true end.
 Definition obs_predict (k : kind) (f : flags) (other_shape : bool) : outcome :=
   predict outcome (fun k m _ _ => ORan k m) same_shape_o (fun _ _ => OSliced) k f OInput (if other_shape then OOldOther else OOld).
-Definition obs_correct (k : kind) (f : flags) (other_shape : bool) : outcome :=
-  correct outcome (fun k _ _ => OCorrected k) k f OInput (if other_shape then OOldOther else OOld).
+
+Section Measured.
+Variable B : Type.
+(* correctStep with the measurement frozen by the n-th freeze call *)
+Variable cstepm : kind -> nat -> B -> B -> B.
+Definition correct_m (k : kind) (st : mstate) (pred old : B) : B :=
+  correct B (fun k => cstepm k (ms_cursor st)) k (ms_flags st) pred old.
+End Measured.
+
+Definition obs_correct (k : kind) (st : mstate) (other_shape : bool) : outcome :=
+  correct_m outcome (fun k n _ _ => OCorrected k n) k st OInput (if other_shape then OOldOther else OOld).
 
 (* OpPredict true / OpCorrect true: the output object has a different shape than the input *)
-Inductive op := OpSkip (w : name) (b : bool) | OpPredict (other_shape : bool) | OpCorrect (other_shape : bool).
-Inductive obs := ObsSkip (r : res) (f : flags) | ObsStep (o : outcome).
-Fixpoint run_ops (k : kind) (ops : list op) (f : flags) : list obs :=
+Inductive op := OpSkip (w : name) (b : bool) | OpPredict (other_shape : bool) | OpCorrect (other_shape : bool) | OpFreeze.
+Inductive obs := ObsSkip (r : res) (f : flags) | ObsStep (o : outcome) | ObsFreeze (cursor : nat).
+
+Definition next (o : op) (st : mstate) : mstate :=
+  match o with
+  | OpSkip w b => mkM (snd (filter_skip w b (ms_flags st))) (ms_cursor st)
+  | OpFreeze => mkM (ms_flags st) (S (ms_cursor st))        (* the skip flag is not consulted *)
+  | OpPredict _ | OpCorrect _ => st
+  end.
+Definition observe (k : kind) (o : op) (st : mstate) : obs :=
+  match o with
+  | OpSkip w b => let x := filter_skip w b (ms_flags st) in ObsSkip (fst x) (snd x)
+  | OpPredict x => ObsStep (obs_predict k (ms_flags st) x)
+  | OpCorrect x => ObsStep (obs_correct k st x)
+  | OpFreeze => ObsFreeze (S (ms_cursor st))
+  end.
+Fixpoint run_ops (k : kind) (ops : list op) (st : mstate) : list obs :=
   match ops with
   | [] => []
-  | OpSkip w b :: r => let x := filter_skip w b f in ObsSkip (fst x) (snd x) :: run_ops k r (snd x)
-  | OpPredict x :: r => ObsStep (obs_predict k f x) :: run_ops k r f
-  | OpCorrect x :: r => ObsStep (obs_correct k f x) :: run_ops k r f
+  | o :: r => observe k o st :: run_ops k r (next o st)
   end.
+Definition final_m (ops : list op) (st : mstate) : mstate := fold_left (fun s o => next o s) ops st.
+
+(* the skip commands of a word of operations, and the word a never-skipped twin receives:
+   the same freeze / predict / correct calls without the skip commands *)
+Definition is_skip (o : op) : bool := match o with OpSkip _ _ => true | _ => false end.
+Fixpoint skips_of (ops : list op) : list cmd :=
+  match ops with
+  | [] => []
+  | OpSkip w b :: r => (w, b) :: skips_of r
+  | _ :: r => skips_of r
+  end.
+Definition calls_of (ops : list op) : list op := filter (fun o => negb (is_skip o)) ops.
+Definition freezes_of (ops : list op) : nat :=
+  length (filter (fun o => match o with OpFreeze => true | _ => false end) ops).
